@@ -371,6 +371,38 @@ Definition dec_optarg (v : val) : option sopt :=
   | _ => None
   end.
 
+(** ---- a session (size.Stat/after-panic): Of and the first line of Stat of a pointer to x1; a Stat
+    call on a holder of that pointer and a member of an unsupported kind (1 = it panicked); the
+    pointee replaced by x2; Of and Stat again.  Three rounds.  The functions keep nothing between
+    calls: every observation is the function of its own argument. *)
+Definition holder_of (variant : Z) (p : value) : value :=
+  if variant =? 2 then VSlice (Some [VIface (Some p); VIface (Some VOther)])
+  else if (variant =? 0) || (variant =? 1) then VStruct [p; VOther]
+  else VStruct [p; VScalar KInt].
+
+Definition first_val (o : option (option Z)) : val :=
+  match o with
+  | Some None => VL []
+  | Some (Some n) => VL [VZ n]
+  | None => VPanic
+  end.
+
+Definition session_round (of_ : option value -> val) (first : option value -> Z -> Z -> val)
+    (panics : value -> bool) (x1 x2 : value) (d m variant : Z) : val :=
+  let p1 := VPtr (Some x1) in
+  let p2 := VPtr (Some x2) in
+  VL [of_ (Some p1); first (Some p1) d m; vbool (panics (holder_of variant p1)); of_ (Some p2); first (Some p2) d m].
+
+Definition session_args (a : list val) : option (value * value * Z * Z * Z) :=
+  match a with
+  | [_; v1; v2; VZ d; VZ m; VZ variant] =>
+      match dec v1, dec v2 with
+      | Some x1, Some x2 => if supportedb x1 && supportedb x2 then Some (x1, x2, d, m, variant) else None
+      | _, _ => None
+      end
+  | _ => None
+  end.
+
 Definition ops_C20 : list opdef := [
   (* size.Of(v): the number, P for a panic *)
   {| op_name := "size.Of";
@@ -508,4 +540,25 @@ Definition ops_C20 : list opdef := [
            | Some d => match spec_opts d depth maxItem (map dec_optarg opts) with Some t => vzs t | None => VPanic end
            | None => VBad end
        | _ => VBad end) |}
+;
+  (* no memory between calls, also not after a call that panicked (see session_round) *)
+  {| op_name := "size.Stat/after-panic";
+     op_run := fun a => match session_args a with
+       | Some (x1, x2, d, m, variant) =>
+           let r := session_round
+                      (fun data => match Of data with Some n => VZ n | None => VPanic end)
+                      (fun data d m => first_val (StatFirst data d m))
+                      (fun h => match StatFirst (Some h) 3 10 with None => true | Some _ => false end)
+                      x1 x2 d m variant in
+           VL [r; r; r]
+       | None => VBad end;
+     op_spec := fun_spec (fun a => match session_args a with
+       | Some (x1, x2, d, m, variant) =>
+           let r := session_round
+                      (fun data => VZ (spec_Of data))
+                      (fun data _ _ => match spec_StatFirst data with None => VL [] | Some n => VL [VZ n] end)
+                      (fun h => negb (supportedb h))
+                      x1 x2 d m variant in
+           VL [r; r; r]
+       | None => VBad end) |}
 ].
